@@ -181,8 +181,12 @@ func TestC04_CLI(t *testing.T) {
 		}
 		var opt database.SearchOptions
 		args := []string{"--no-color", "-d", dbp, "--format", "json", "-v", "--limit", "100"}
-		for _, p := range rapid.SliceOfN(rapid.SampledFrom([]string{"linux", "windows", "macos", "Windows", "darwin", "cross-platform", "freebsd"}), 0, 2).Draw(t, "platforms") {
+		for _, p := range rapid.SliceOfN(rapid.SampledFrom([]string{"linux", "windows", "macos", "Windows", "darwin", "cross-platform", "freebsd", "macos,", "w", "lin", ",linux"}), 0, 2).Draw(t, "platforms") {
 			args = append(args, "--platform", p)
+			if strings.Contains(p, ",") { // pflag splits on commas: "macos," means [macos ""]
+				opt.Platforms = append(opt.Platforms, strings.Split(p, ",")...)
+				continue
+			}
 			opt.Platforms = append(opt.Platforms, p)
 		}
 		if rapid.IntRange(0, 2).Draw(t, "nocross") == 0 {
